@@ -147,7 +147,14 @@ class Siblings:
         slicer = Slicer(self.sym, cfg.module, cfg.subject, cls)
         items = slicer.slice(cfg.func.body)
         it = S.SeqInterp(cfg, slicer, cls.name)
-        it.run(items)
+        try:
+            it.run(items)
+        except AnalysisError as e:
+            # the slice uses a construct the term language cannot express: nothing is claimed about this verb in this
+            # sibling (the callers record it as undecided), the other verbs are still decided
+            out = {"_undecided": str(e), "_trace": it.trace, "_items": items, "_interp": it}
+            self._terms[key] = out
+            return out
         out = {}
         for which in cfg.outputs:
             raw = it.output(which)
@@ -230,6 +237,16 @@ def _subst(t, a, b):
     return t
 
 
+def undecided(chk, rule, t, what) -> bool:
+    """True (and a note on the check) if the term interpretation gave up on this slice"""
+    if t.get("_undecided"):
+        msg = f"{rule}: {what}: {t['_undecided'][:200]}"
+        if msg not in chk.undecided:
+            chk.undecided.append(msg)
+        return True
+    return False
+
+
 def compare(chk, rule, verb_names, pairs, components=("SEL", "PART"), what="visible column sequence"):
     """evaluate `sibling A and sibling B compute the same term` for each verb / pair / component"""
     sib = get_siblings(chk)
@@ -239,6 +256,8 @@ def compare(chk, rule, verb_names, pairs, components=("SEL", "PART"), what="visi
             continue
         for a, b in pairs:
             ta, tb = sib.terms(a, v), sib.terms(b, v)
+            if undecided(chk, rule, ta, f"{v.name} in {a}") or undecided(chk, rule, tb, f"{v.name} in {b}"):
+                continue
             for comp in components:
                 na, nb = ta[comp]["nf"], tb[comp]["nf"]
                 if comp == "PART" and v.name in PRECONDITION_EMPTY_PART:
